@@ -9,6 +9,7 @@ import (
 
 	obskeyper "github.com/shutter-network/rolling-shutter/rolling-shutter/chainobserver/db/keyper"
 	"github.com/shutter-network/rolling-shutter/rolling-shutter/keyper/epochkghandler"
+	"github.com/shutter-network/rolling-shutter/rolling-shutter/medley/beaconapiclient"
 	"github.com/shutter-network/rolling-shutter/rolling-shutter/medley/broker"
 	"github.com/shutter-network/rolling-shutter/rolling-shutter/medley/identitypreimage"
 	"github.com/shutter-network/rolling-shutter/rolling-shutter/p2p"
@@ -17,7 +18,17 @@ import (
 // VerifNewKeyper builds a Gnosis keyper with injected pool and trigger channel
 // (what Start creates after dialling the database), without any network client.
 func VerifNewKeyper(config *Config, dbpool *pgxpool.Pool, trigger chan *broker.Event[*epochkghandler.DecryptionTrigger]) *Keyper {
-	return &Keyper{config: config, dbpool: dbpool, decryptionTriggerChannel: trigger, syncMonitor: &SyncMonitor{}}
+	beacon, err := beaconapiclient.New("http://beacon.sim")
+	if err != nil {
+		panic(err)
+	}
+	return &Keyper{config: config, dbpool: dbpool, decryptionTriggerChannel: trigger, syncMonitor: &SyncMonitor{}, beaconAPIClient: beacon}
+}
+
+// VerifMaybeTriggerDecryption runs the real per-slot processing (slot de-duplication, sync
+// status, keyper set membership, proposer registration, tx pointer age, trigger).
+func (kpr *Keyper) VerifMaybeTriggerDecryption(ctx context.Context, slot uint64) error {
+	return kpr.maybeTriggerDecryption(ctx, slot)
 }
 
 // VerifHandlers returns the flavour's gossip handlers in the order Start registers them.
